@@ -42,7 +42,9 @@ RATIOS = {'std': [0.17, 0.05, 0.02], 'one': [1.0, 1.0, 1.0], 'tiny': [1e-12, 1e-
 SLOTS = ['H2O', 'CH4', 'CO', 'Na']
 GAS_LETTERS = ['-', 'c:1e-3', 'c:0.5', 'c:0.25', 'c:0.3', 'c:1e-12', 'c:0.500000000001',
                'tp:0.3>1e-6', 'tp:0.3>0.6', 'tp:0.6>0.3', 'arr', 'pow', 'tl']
-AVAIL = [['H2O'], [], ['H2O', 'CH4'], ['He', 'CO', 'Na'], ['CH4', 'H2', 'Na']]
+AVAIL = [['H2O'], [], ['H2O', 'CH4'], ['He', 'CO', 'Na'], ['CH4', 'H2', 'Na'],
+         # opacity data for every gas there is, fill gases included: nothing is left non-absorbing
+         ['H2', 'He', 'N2', 'CO2', 'H2O', 'CH4', 'CO', 'Na']]
 CONTROLS = [1e-12, 1e-6, 1e-3, 0.3, 0.5, 'gen1', 'gen2']   # genN: seed-dependent generic value
 NS_QUICK = [2, 3, 4, 5, 7, 10, 13, 25, 30, 45, 100]
 PRANGES = {'std': (1e-4, 1e6), 'short': (1e-1, 1e5), 'wide': (1e-8, 1e4), 'narrow': (1e2, 1e3)}
@@ -408,6 +410,8 @@ def mix_cases(tier):
         cases += [c for c in core.product_cases(dims, core=['fill', 'ratio', 'avail', 'mode'], d=0)
                   if c not in cases[:0]]
         cases += core.product_cases(dims, core=['fill', 'ratio', 'H2O', 'N'], d=0)
+        # every fill list x every pair of trace profiles (the pairs decide accept / reject)
+        cases += core.product_cases(dims, core=['fill', 'H2O', 'CH4'], d=0)
     else:
         cases = core.product_cases(dims, core=SLOTS, d=2)
         cases += core.product_cases(dims, core=['fill', 'ratio', 'avail', 'mode', 'H2O', 'N'], d=0)
